@@ -185,3 +185,7 @@ impl Runtime {
             r is Unwind ==> !future.completes(),
     { unimplemented!() }
 }
+
+// vacuity guard: reachability probes `if vx_nondet() { assert(false); }` must all FAIL
+#[verifier::external_body]
+pub fn vx_nondet() -> (r: bool) { unimplemented!() }
